@@ -366,7 +366,7 @@ fn main() {
     let tier = args.tier;
     let from: usize = args.extra.get("from").and_then(|s| s.parse().ok()).unwrap_or(0);
     let n = args.extra.get("to").and_then(|s| s.parse::<usize>().ok()).map(|t| t - from).unwrap_or(n - from.min(n));
-    let rs = run_cases(n, args.threads, |i| dispatch(SETUPS[(i + from) % SETUPS.len()], seed, i + from, tier));
+    let rs = run_cases_isolated(n, args.threads, |i| dispatch(SETUPS[(i + from) % SETUPS.len()], seed, i + from, tier));
     rep.add_all(rs);
     rep.finish(args.tier.pick(10_000, 200_000));
 }
